@@ -93,6 +93,8 @@ struct Inner {
     dead_waker_uses_superseded: u32,
     /// scheduling points executed by each thread itself
     steps_of:     Vec<u32>,
+    /// scheduling points executed by each thread while no *other* thread was inside a harness-declared operation
+    solo_steps:   Vec<u32>,
     /// ... since its current harness-declared operation started (bounded fairness for retry loops that keep writing)
     steps_in_op:  Vec<u32>,
     /// threads that asked to let the others run first (harness-level back-off of a retry loop)
@@ -294,6 +296,7 @@ impl Sched {
                 yielding: vec![false; n],
                 steps_of: vec![0; n],
                 steps_in_op: vec![0; n],
+                solo_steps: vec![0; n],
             }),
             cvs: (0..n).map(|_| Condvar::new()).collect(),
             ctl: Condvar::new(),
@@ -364,6 +367,7 @@ impl Sched {
         g.step += 1;
         g.steps_of[me] += 1;
         g.steps_in_op[me] += 1;
+        if !(0..g.in_op.len()).any(|t| t != me && g.in_op[t]) { g.solo_steps[me] += 1; }
         for t in 0..g.yielding.len() { if t != me { g.yielding[t] = false; } }
         if g.step > g.max_steps {
             self.abort_now(&mut g, EndState::Budget);
@@ -497,6 +501,7 @@ impl Sched {
 
     pub fn step(&self) -> u32 { self.m.lock().unwrap().step }
     pub fn steps_of(&self, tid: usize) -> u32 { self.m.lock().unwrap().steps_of[tid] }
+    pub fn solo_steps_of(&self, tid: usize) -> u32 { self.m.lock().unwrap().solo_steps[tid] }
 
     fn set_in_op(&self, me: usize, v: bool) { let mut g = self.m.lock().unwrap(); g.in_op[me] = v; g.steps_in_op[me] = 0; }
 
@@ -580,6 +585,8 @@ impl ThreadCtx {
     pub fn tick(&self) -> u64 { self.sched.tick() }
     /// scheduling points this thread itself has executed so far
     pub fn own_steps(&self) -> u32 { self.sched.steps_of(self.tid) }
+    /// ... of which: executed while no other thread was inside an operation (steps that cannot be explained by waiting for a peer's operation in progress)
+    pub fn solo_steps(&self) -> u32 { self.sched.solo_steps_of(self.tid) }
     pub fn park(&self) -> ParkResult { self.sched.park(self.tid) }
     /// lets the other threads run first; `false` if nobody else can run
     pub fn backoff(&self) -> bool { self.sched.backoff(self.tid) }
@@ -646,4 +653,26 @@ pub fn noop_waker() -> Waker {
     unsafe fn n(_: *const ()) {}
     static NOOP_VTABLE: RawWakerVTable = RawWakerVTable::new(c, n, n, n);
     unsafe { Waker::from_raw(RawWaker::new(std::ptr::null(), &NOOP_VTABLE)) }
+}
+
+/// Runs `f` as the single logical thread of a fresh scheduler: library code that could spin for ever (a corrupted ring, a lock
+/// that is never released) ends in a decided `Stall` / `Budget` verdict instead of hanging the harness.
+/// On an abnormal end whatever `f` owned is leaked (its destructors might spin as well).
+pub fn guarded<R: Send + 'static>(max_steps: u32, f: impl FnOnce() -> R + Send + 'static) -> Result<R, EndState> {
+    let sched = Sched::new(1, Schedule::Sparse(vec![]), max_steps);
+    let slot: Arc<Mutex<Option<R>>> = Arc::new(Mutex::new(None));
+    let slot2 = Arc::clone(&slot);
+    let ledger = crate::payload::current_ledger();
+    let body: Box<dyn FnOnce(&ThreadCtx) + Send> = Box::new(move |_ctx: &ThreadCtx| {
+        crate::payload::set_current_ledger(ledger);
+        let r = f();
+        *slot2.lock().unwrap() = Some(r);
+    });
+    let out = sched.execute(vec![body]);
+    let got = slot.lock().unwrap().take();
+    match (out.end, got) {
+        (EndState::Completed, Some(r)) => Ok(r),
+        (EndState::Completed, None) => Err(EndState::Panicked { tid: 0, msg: "guarded section produced no result".into() }),
+        (other, _) => Err(other),
+    }
 }
